@@ -69,7 +69,7 @@ def check(ctx, run):
     run.assume("vsnprintf(dst, n, ...) writes at most n bytes including the terminator and returns the untruncated length (C99)")
     run.not_decided.append("the exact message text for every operand pair; termination of the operand rendering helpers on arbitrary bytes (C13)")
     run.rule("R1", "fixed buffer: under the invariant (write_limit_ <= LEN-1, positions_filled_ <= LEN-1) established by every writer of the two fields, add() folded over the boundary lattice of (limit, fill, vsnprintf result) never hands vsnprintf a window outside [0, LEN) and re-establishes the invariant", floor=150, exhaustive=True)
-    run.rule("R2", "footer reservation: the leak report folded over scripted table walks (0..3 leaks x allocator kinds x buffer full or not): the write limit is set before any text, the capacity is sampled before the limit is reset, the total line states the number of leaks walked also when the buffer was full, the too-many notice appears iff it was full, the malloc warning iff a malloc leak was seen; the space left by the limit covers the worst-case text added after the reset", floor=5)
+    run.rule("R2", "footer reservation: the leak report folded over scripted table walks (0..3 leaks x allocator kinds x buffer full or not): the write limit is set before any text, the capacity is sampled before the limit is reset, the total line states the number of leaks walked also when the buffer was full, the too-many notice appears iff it was full, the malloc warning iff a malloc leak was seen; the space left by the limit covers the worst-case text added after the reset; the table walk the report relies on (getFirstLeak / getNextLeak) visits every bucket in order", floor=5)
     run.rule("R3", "first-difference scans: every loop that advances while two sequences agree also stops at the end of a sequence, unless every construction site of the failure is dominated by a comparison != 0 of the very same operands (frozen exceptions); the scans are also exercised by the R4 folds on operand pairs whose printable renderings coincide", floor=4)
     run.rule("R5", "bit operands: StringFromMaskedBits (the operand rendering of BITS_EQUAL failures) folded over byte counts 0..9 and 16 x value/mask patterns against the reference rendering; an undefined shift on the way is a violation; printable() text folded for every byte value and byte pairs (each byte itself, its short escape or the hex escape of its own value)", floor=2, exhaustive=True)
     masked_bits_rule(prog, run, "R5", thorough=ctx.thorough)
@@ -165,6 +165,10 @@ def check(ctx, run):
     run.assume("fewer than 2^31 leaks are reported in one run (the total is printed through (int))")
     from .shared import report_rules
     report_rules(prog, run, "R2", "R2", LEN)
+    # the report (listing and total) walks the table with getFirstLeak / getNextLeak: a walker that skips a bucket leaves a leak
+    # out of both without the too-many notice (shared with C04 / C07)
+    from .C04 import table_walk_rules
+    table_walk_rules(prog, run, "R2", "R2", only=("getFirstLeak", "getNextLeak"))
 
     # ---------------- R3 ----------------------------------------------------
     EXC = {  # constructor -> reason the raw scan may omit the end test
